@@ -134,7 +134,9 @@ where
     }
 
     fn early_exit(&self) {
-        self.counter().store(self.range.end.into())
+        // the counter holds indices, not values: the length (rather than the end value) marks the end
+        // and leaves as much room as possible before the counter could wrap around
+        self.counter().store(self.initial_len())
     }
 }
 
